@@ -43,6 +43,9 @@ pub enum Event {
     CancelSocket(usize),
     /// make the next n poll_send calls of a socket return Pending
     SendPending { sock: usize, n: u32 },
+    /// re-inject a copy of an old (non-SYN) datagram of the wire log, chosen by fraction x/65535,
+    /// into its original destination (stale traffic after a connection ended)
+    ReplayOld(u16),
 }
 
 #[derive(Clone, Debug, Serialize, Deserialize)]
@@ -257,6 +260,15 @@ pub fn run_with(sc: &Scenario, trace: bool, setup: impl FnOnce(&Net)) -> RunResu
                     Event::CutDir { from, to } => net.cut_direction(addrs[*from], addrs[*to]),
                     Event::CancelSocket(i) => socks[*i].1.cancel(),
                     Event::SendPending { sock, n } => net.make_sends_pending(addrs[*sock], *n),
+                    Event::ReplayOld(f) => {
+                        let pick = net.with_log(|log| {
+                            let c: Vec<&WireRec> = log.iter().filter(|r| r.from_stack && r.pkt.as_ref().is_some_and(|p| p.ptype != crate::model::refparse::ST_SYN)).collect();
+                            if c.is_empty() { None } else { let r = c[crate::engine::pick_idx(*f, c.len())]; Some((r.src, r.dst, r.bytes.clone())) }
+                        });
+                        if let Some((src, dst, bytes)) = pick {
+                            net.inject(src, dst, bytes, 0);
+                        }
+                    }
                 }
                 ev_i += 1;
             }
